@@ -11,7 +11,7 @@ import shutil
 import tempfile
 
 VERIF = os.path.dirname(os.path.dirname(os.path.abspath(__file__)))
-EXTRA = {"C10-A": ["C10", "C06"], "C02-A": ["C02", "C06"], "C17-D": ["C17", "C10"], "C17-K": ["C17", "C10"], "C16-I": ["C16", "C20"]}
+EXTRA = {"C02-P": ["C02", "C06"], "C17-P": ["C17", "C10"], "C10-A": ["C10", "C06"], "C02-A": ["C02", "C06"], "C17-D": ["C17", "C10"], "C17-K": ["C17", "C10"], "C16-I": ["C16", "C20"]}
 
 
 def main():
